@@ -290,13 +290,37 @@ def fam_maa_cascade(rng, nmax):
     return funcs, []
 
 
-FAMILIES = ["sparse", "dense", "canal", "modular", "maa", "cascade", "maa_cascade"]
+def fam_degenerate(rng, nmax):
+    """Edge shapes: one-variable networks, only constants, only inputs, self-loops
+    (x = x, x = !x), a single relay chain."""
+    n = rng.randint(1, max(1, min(4, nmax)))
+    funcs, free = [], []
+    for i in range(n):
+        k = rng.choice(["const0", "const1", "input", "free", "notself", "relay", "relay_neg"])
+        if k == "const0":
+            funcs.append([[], [0]])
+        elif k == "const1":
+            funcs.append([[], [1]])
+        elif k == "input":
+            funcs.append([[i], [0, 1]])
+        elif k == "free":
+            funcs.append([[i], [0, 1]])
+            free.append(i)
+        elif k == "notself":
+            funcs.append([[i], [1, 0]])
+        else:
+            j = rng.randrange(n)
+            funcs.append([[j], [0, 1] if k == "relay" else [1, 0]])
+    return funcs, free
+
+
+FAMILIES = ["sparse", "dense", "canal", "modular", "maa", "cascade", "maa_cascade", "degenerate"]
 
 
 def gen_network(rng, weights=None, nmin=2, nmax=6, fmts=("bnet", "aeon"), names=None, shuffle_order=False):
     """Draw a family and an instance.  `weights` maps family -> weight."""
     if weights is None:
-        weights = {"sparse": 4, "dense": 1, "canal": 2, "modular": 2, "maa": 1, "cascade": 2}
+        weights = {"sparse": 4, "dense": 1, "canal": 2, "modular": 2, "maa": 1, "cascade": 2, "degenerate": 1}
     fams = [f for f in FAMILIES if weights.get(f, 0) > 0]
     fam = rng.choices(fams, [weights[f] for f in fams])[0]
     if fam == "sparse":
@@ -310,6 +334,8 @@ def gen_network(rng, weights=None, nmin=2, nmax=6, fmts=("bnet", "aeon"), names=
         funcs, free = fam_canal(rng, n)
     elif fam == "modular":
         funcs, free = fam_modular(rng, nmax)
+    elif fam == "degenerate":
+        funcs, free = fam_degenerate(rng, nmax)
     elif fam == "maa_cascade":
         funcs, free = fam_maa_cascade(rng, nmax)
     elif fam == "cascade":
